@@ -15,6 +15,16 @@
 static inline void __syncthreads() { gpusim_barrier(); }
 template <class T> static inline T atomicAdd(T *p, T v) { return gpusim_aadd(p, v); }
 template <class T> static inline T atomicSub(T *p, T v) { return gpusim_aadd(p, (T) -v); }
-static inline int atomicInc(int *p) { return gpusim_aadd(p, 1); }
-static inline int atomicDec(int *p) { return gpusim_aadd(p, -1); }
+// CUDA's atomicInc/atomicDec exist for unsigned int only, take a wrap-around bound and are NOT ++/--:
+//   atomicInc(p, v): old = *p; *p = (old >= v) ? 0 : old + 1;   atomicDec(p, v): *p = (old == 0 || old > v) ? v : old - 1
+static inline unsigned int atomicInc(unsigned int *p, unsigned int v) {
+  unsigned int old = *p;      // (one simulated thread runs at a time between scheduling points; the access below is traced)
+  gpusim_aadd((int*) p, (int) ((old >= v) ? 0u - old : 1u));
+  return old;
+}
+static inline unsigned int atomicDec(unsigned int *p, unsigned int v) {
+  unsigned int old = *p;
+  gpusim_aadd((int*) p, (int) (((old == 0) || (old > v)) ? v - old : 0u - 1u));
+  return old;
+}
 #endif
